@@ -605,6 +605,7 @@ type hist struct {
 	recs   []opRec
 	mains  []string // outcomes of the runs of the code object holding the main forms, in order
 	failed bool
+	fmaks  int
 }
 
 func (h *hist) load(cid int, forms []*node) {
@@ -645,6 +646,34 @@ func (h *hist) compile(cid int) {
 	h.gops = append(h.gops, fmt.Sprintf("OCompile %d", cid))
 	h.gobs = append(h.gobs, o.gal)
 	h.recs = append(h.recs, opRec{Op: "compile", Code: cid, Outcome: o.show})
+}
+
+// defName: the function a definition form defines ("" for a variable definition)
+func defName(d *node) string {
+	if d.isList && len(d.xs) > 1 && d.xs[0].sym == "defun" {
+		return d.xs[1].sym
+	}
+	if d.isList && len(d.xs) == 3 && d.xs[0].sym == "let" {
+		return defName(d.xs[2])
+	}
+	return ""
+}
+
+// fmak evaluates (fmakunbound 'name) at top level; the model gets the operation OFmak (no observation)
+func (h *hist) fmak(name string) {
+	rec := opRec{Op: "fmakunbound", Lisp: "(fmakunbound '" + name + ")"}
+	func() {
+		defer func() {
+			if r := recover(); r != nil {
+				h.failed = true
+				_, rec.Outcome = classify(r)
+			}
+		}()
+		slip.ReadString(rec.Lisp, h.scope).Eval(h.scope, nil)
+	}()
+	h.fmaks++
+	h.gops = append(h.gops, fmt.Sprintf("OFmak \"%s\"", strings.ToLower(name)))
+	h.recs = append(h.recs, rec)
 }
 
 func (h *hist) run(cid int, isMain bool) {
@@ -839,6 +868,24 @@ func play(ctx *common.Ctx, p *program, tmpl int, order []int, compileMains bool,
 			h.run(1, len(p.redefs) == 0)
 		}
 		for r, ds := range p.redefs {
+			if x := ctx.Rng.Intn(100); x < 30 {
+				// fmakunbound of a function the round redefines, its new definition first in the round's object
+				// (inside the guard when the new body does not mention the name)
+				for i, d := range ds {
+					if nm := defName(d); nm != "" {
+						ds = append([]*node{d}, append(append([]*node{}, ds[:i]...), ds[i+1:]...)...)
+						h.fmak(nm)
+						ctx.Hist("fmakunbound:before-redefinition")
+						break
+					}
+				}
+			} else if x < 38 {
+				// anywhere: callers compiled earlier keep the old definition (known findings; judged by the model)
+				if nm := defName(p.defs[ctx.Rng.Intn(len(p.defs))]); nm != "" {
+					h.fmak(nm)
+					ctx.Hist("fmakunbound:anywhere")
+				}
+			}
 			h.load(2+r, ds)
 			if ctx.Rng.Chance(30) {
 				h.compile(2 + r)
@@ -935,6 +982,7 @@ func Run(ctx *common.Ctx) {
 		}
 		var groupMains [][]string
 		var groupDescs []any
+		groupFmak := false
 		for v := 0; v < nvar; v++ {
 			prefix := fmt.Sprintf("q%d%c", caseNo, 'p'+v)
 			p := &program{fns: base.fns, redefI: base.redefI}
@@ -1006,6 +1054,9 @@ func Run(ctx *common.Ctx) {
 				groupMains = append(groupMains, h.mains)
 				groupDescs = append(groupDescs, d)
 			}
+			if h.fmaks > 0 {
+				groupFmak = true
+			}
 		}
 		// direct comparison across the variants of a group: every evaluation of the main forms, whatever the
 		// definition order, compiled or not, first or k-th, must give the same outcome - unless the outcome is
@@ -1013,6 +1064,10 @@ func Run(ctx *common.Ctx) {
 		// and compiled code).  In a redefine-between-runs group the evaluations after the last round of
 		// redefinitions are compared with the one-object variant that makes all definitions in order first.
 		var ref string
+		if groupFmak {
+			// a function made unbound (and perhaps not redefined) changes the final meaning: model only
+			groupMains = nil
+		}
 		if base.initForms {
 			// the init form of a variable is evaluated where the definition stands: with another order of the
 			// definitions it legitimately sees other function definitions (and emits at another moment); such
@@ -1068,6 +1123,8 @@ func Run(ctx *common.Ctx) {
 				h.load(st.cid, fs)
 			case "compile":
 				h.compile(st.cid)
+			case "fmak":
+				h.fmak(strings.Replace(st.name, "zz", prefix, 1))
 			default:
 				h.run(st.cid, false)
 			}
@@ -1083,7 +1140,7 @@ func Run(ctx *common.Ctx) {
 		distinct[strings.ReplaceAll(strings.Join(h.gops, ";"), prefix, "")] = true
 	}
 	ctx.Meta.DistinctNontrivial = len(distinct)
-	ctx.Meta.Rule = "programs of 2-5 functions (names sharing prefixes with def*/let*/set*/if/lambda/quote/progn forms, 15% of the occurrences of a function name written in another case) over +,-,<,list,rest,progn,if,case,floor,values,nil,t,emit, defvar/defparameter of 1-2 variables whose names are also parameters of some functions (defined before and after the functions, redefined between runs), 22% of the bodies bare symbols (parameter / shared name / other), list-valued forms - often empty list objects - as tests of if (35%), branches, clause forms, arguments (multiple-value producers in every argument position, as branches, bodies and main forms) with calls in argument position to functions of lower level and recursive calls (to any function, mutual recursion included) under (if (< n 1) ..); 0-3 rounds of redefinitions; 1-3 main forms; random definition order; seven history templates over code objects (one of them the REPL/load discipline: each form read, compiled and evaluated on its own) (load, Code.Compile, Code.Eval k=1..5 times, definitions before/after/between the main forms, redefinition between runs, fresh re-reading) plus, for every redefinition history, the variant with all definitions and redefinitions in one code object (direct comparison of the final meaning); 1.5% of the sub-expressions calls of a never-defined function with emitting / failing arguments (lookup time of an undefined operator); 22% of the variable definitions with an init FORM (call of a program function, arithmetic, emit) evaluated where the definition stands - by Code.Compile for a compiled object; 7% of the function definitions inside a let binding the shared / parameter names (closure), redefined at top level and back; Code.Compile is an observed operation (result or condition + emitted values); ENUMERATED blocks: init-timing = {defvar, defparameter} x variable definition before / between / after two definitions of the function its init form calls x 3 init shapes x {list form, compiled, compiled and run twice} (54 histories); closure-redefinition = {let->top, top->let, let->let', top->top, let->let} x global variable defined or not x caller defined before or after x second definition's object compiled or not x body (+ n x) / bare x (80 histories); wrong argument counts in 7% of the calls; evaluations = evaluations or compilations of a code object; distinct = distinct histories up to the name prefix"
+	ctx.Meta.Rule = "programs of 2-5 functions (names sharing prefixes with def*/let*/set*/if/lambda/quote/progn forms, 15% of the occurrences of a function name written in another case) over +,-,<,list,rest,progn,if,case,floor,values,nil,t,emit, defvar/defparameter of 1-2 variables whose names are also parameters of some functions (defined before and after the functions, redefined between runs), 22% of the bodies bare symbols (parameter / shared name / other), list-valued forms - often empty list objects - as tests of if (35%), branches, clause forms, arguments (multiple-value producers in every argument position, as branches, bodies and main forms) with calls in argument position to functions of lower level and recursive calls (to any function, mutual recursion included) under (if (< n 1) ..); 0-3 rounds of redefinitions; 1-3 main forms; random definition order; seven history templates over code objects (one of them the REPL/load discipline: each form read, compiled and evaluated on its own) (load, Code.Compile, Code.Eval k=1..5 times, definitions before/after/between the main forms, redefinition between runs, fresh re-reading) plus, for every redefinition history, the variant with all definitions and redefinitions in one code object (direct comparison of the final meaning); 1.5% of the sub-expressions calls of a never-defined function with emitting / failing arguments (lookup time of an undefined operator); 22% of the variable definitions with an init FORM (call of a program function, arithmetic, emit) evaluated where the definition stands - by Code.Compile for a compiled object; 7% of the function definitions inside a let binding the shared / parameter names (closure), redefined at top level and back; Code.Compile is an observed operation (result or condition + emitted values); ENUMERATED blocks: init-timing = {defvar, defparameter} x variable definition before / between / after two definitions of the function its init form calls x 3 init shapes x {list form, compiled, compiled and run twice} (54 histories); closure-redefinition = {let->top, top->let, let->let', top->top, let->let} x global variable defined or not x caller defined before or after x second definition's object compiled or not x body (+ n x) / bare x (80 histories); fmakunbound-redefinition = function defined before its caller or only referenced x {redefined at once, old caller called while unbound, new caller compiled while unbound} x new definition's object compiled or not x 2 bodies (24 histories; (fmakunbound 'f) is a history operation, also before 30% of the redefinition rounds and at 8% of them anywhere); wrong argument counts in 7% of the calls; evaluations = evaluations or compilations of a code object; distinct = distinct histories up to the name prefix"
 	header := "From Coq Require Import List ZArith String.\nFrom C08 Require Import Model Spec Corr.\nImport ListNotations.\nOpen Scope string_scope.\nOpen Scope list_scope.\n"
 	footer := "Definition res := Eval vm_compute in check_all cases.\nPrint res.\nDefinition gcount := Eval vm_compute in guard_count cases.\nPrint gcount.\nDefinition outside := Eval vm_compute in outside_count cases.\nPrint outside.\nDefinition deviations := Eval vm_compute in deviation_count cases.\nPrint deviations.\nDefinition lookuplate := Eval vm_compute in late_count cases.\nPrint lookuplate.\n"
 	ctx.WriteShards("cases", header, "case", footer, terms, descs, 16)
@@ -1096,6 +1153,7 @@ type sstep struct {
 	op    string
 	cid   int
 	forms []*node
+	name  string
 }
 
 type scase struct {
@@ -1189,6 +1247,43 @@ func systematic() (out []scase) {
 							what:  fmt.Sprintf("definitions %s then %s (pair %d), global variable %d, caller first %d, second object compiled %d, body %d", pair[0], pair[1], pi, glob, callerFirst, comp, bi),
 							steps: steps})
 					}
+				}
+			}
+		}
+	}
+	// fmakunbound-redefinition: callers compiled before the fmakunbound must follow the new definition
+	for known := 0; known < 2; known++ { // f defined before its caller, or only referenced by it
+		for between := 0; between < 3; between++ { // nothing / the old caller is called / a new caller is compiled
+			for comp := 0; comp < 2; comp++ {
+				for bi := 0; bi < 2; bi++ {
+					body := func(k int64) *node {
+						if bi == 0 {
+							return call("+", Y("n"), I(k))
+						}
+						return call("list", Y("n"), call("emit", I(k)))
+					}
+					caller := dfun(g, []string{"n"}, ucall(f, Y("n")))
+					var o0 []*node
+					if known == 1 {
+						o0 = append(o0, dfun(f, []string{"n"}, body(1)), caller, ucall(g, I(1)))
+					} else {
+						o0 = append(o0, caller, L(Y("defvar"), Y(v), I(0)))
+					}
+					steps := []sstep{{op: "load", cid: 0, forms: o0}, {op: "run", cid: 0}, {op: "fmak", name: f}}
+					switch between {
+					case 1:
+						steps = append(steps, sstep{op: "load", cid: 3, forms: []*node{ucall(g, I(1))}}, sstep{op: "run", cid: 3})
+					case 2:
+						steps = append(steps, sstep{op: "load", cid: 3, forms: []*node{dfun("zzk", []string{"n"}, ucall(f, Y("n")))}}, sstep{op: "run", cid: 3})
+					}
+					steps = append(steps, sstep{op: "load", cid: 1, forms: []*node{dfun(f, []string{"n"}, body(2)), call("list", ucall(g, I(1)), ucall(f, I(1)))}})
+					if comp == 1 {
+						steps = append(steps, sstep{op: "compile", cid: 1})
+					}
+					steps = append(steps, sstep{op: "run", cid: 1}, sstep{op: "run", cid: 1})
+					out = append(out, scase{block: "fmakunbound-redefinition",
+						what:  fmt.Sprintf("function defined before its caller %d, between fmakunbound and redefinition %d, compiled %d, body %d", known, between, comp, bi),
+						steps: steps})
 				}
 			}
 		}
